@@ -98,10 +98,10 @@ def run(prog, tier):
         op = cmpv.op if left_is_draw else {"Lt": "Gt", "LtE": "GtE", "Gt": "Lt", "GtE": "LtE"}.get(cmpv.op, cmpv.op)
 
         # ---- orientation: accept edge taken when u < A (or <=); the edge leaves the retry loop
-        body_breaks = any(isinstance(s, ast.Break) for s in ast.walk(ast.Module(body=if_stmt.body, type_ignores=[])))
+        body_breaks = any(isinstance(s, (ast.Break, ast.Return)) for s in ast.walk(ast.Module(body=if_stmt.body, type_ignores=[])))
         ok_or = op in ("Lt", "LtE") and body_breaks
         obs.append(struct_ob("accept-orientation", construct, ok_or,
-                             f"the move must be accepted when uniform < A (accept edge = break out of the retry loop); "
+                             f"the move must be accepted when uniform < A (accept edge = break / return out of the retry loop); "
                              f"test is `{U(if_stmt.test)}` (normalised operator {op}, break in body: {body_breaks})",
                              rel, if_stmt.lineno, slots={"test": U(if_stmt.test)}))
 
@@ -152,9 +152,16 @@ def run(prog, tier):
         elif cname == "EnsembleSampler":
             z = None
             for st in ast.walk(fn):
-                if isinstance(st, ast.Assign) and isinstance(st.value, ast.Call) \
-                        and U(st.value.func).endswith("__proposal") and isinstance(st.targets[0], ast.Tuple):
-                    z = env.get(st.targets[0].elts[1].id)
+                if isinstance(st, ast.Assign) and isinstance(st.value, ast.Call) and U(st.value.func).endswith("__proposal"):
+                    if isinstance(st.targets[0], ast.Tuple):
+                        z = env.get(st.targets[0].elts[1].id)
+                    elif isinstance(st.targets[0], ast.Name):
+                        # the pair is kept in one local and taken apart by index: z is its element 1
+                        pv = env.get(st.targets[0].id)
+                        if isinstance(pv, TupleV) and len(pv.items) == 2:
+                            z = pv.items[1]
+                        elif isinstance(pv, R):
+                            z = guard(lambda: ex.component(pv, 1))
             if z is None:
                 raise AnalysisError(f"anchor vanished: stretch factor in {construct}")
             want_J = (R.sym("self.n_parameters") - 1) * anf.log_(z)
